@@ -88,6 +88,16 @@ Theorem echo_clause_quiet :
   forall script t s off evs, forallb quiet_event evs = true -> echo_ok script (t, s, off, evs) = true.
 Proof. exact echo_clause_quiet_lemma. Qed.
 
+(* chunking irrelevance at the Input level: an input function that returns the same text in any two sequences of pieces (pieces may end in the middle of a line; only an empty piece is the end of input) gives the same run *)
+Theorem input_pieces_irrelevant :
+  forall parser fuel pf (p1 p2 d : dev), concat p1 = concat p2 -> model_run parser fuel pf (SrcInput p1) d = model_run parser fuel pf (SrcInput p2) d.
+Proof. exact input_pieces_irrelevant_lemma. Qed.
+
+(* and the same run as the input function that returns the text line by line (Memory) *)
+Theorem input_pieces_equal_lines :
+  forall parser fuel pf (p d : dev), model_run parser fuel pf (SrcInput p) d = model_run parser fuel pf (SrcMem (split_lines (concat p))) d.
+Proof. exact input_pieces_equal_lines_lemma. Qed.
+
 Print Assumptions model_refines_spec.
 Print Assumptions run_is_line_by_line.
 Print Assumptions chunking_irrelevant.
@@ -105,3 +115,5 @@ Print Assumptions table_parser_reads_lines.
 Print Assumptions table_parser_depth.
 Print Assumptions fuel_never_runs_out.
 Print Assumptions echo_clause_quiet.
+Print Assumptions input_pieces_irrelevant.
+Print Assumptions input_pieces_equal_lines.
